@@ -72,10 +72,12 @@ theorem acceptScore_some (new : Option α) (old kt thr s : α)
   unfold acceptScore at h
   split at h
   · split at h
-    · exact h
+    · cases h
     · split at h
       · exact h
-      · cases h
+      · split at h
+        · exact h
+        · cases h
   · cases h
 
 /-- explicit description of one step -/
